@@ -212,13 +212,21 @@ def check_vec(ctx, config, rule):
         if not cl:
             # the adapter written as a function-local struct with its own Iterator::next instead of a from_fn closure
             cl = [x for x in db.fn_bodies() if x['kind'] == 'assoc_fn' and x['meta'].get('name') == 'next' and (b['id'] + '::') in x['id']]
+        if not cl:
+            # the adapter was moved into a private helper of this impl (called from here, from nowhere else)
+            for e in own_calls(r):
+                hb = db.by_path.get(e.callee) or db.bodies.get(e.callee)
+                if hb is not None and hb['kind'] == 'fn' and (hb.get('span') or '').split(':')[0] == (b.get('span') or '').split(':')[0] and I.exclusive_helper(hb['id'], b['id']):
+                    cl = [x for x in db.fn_bodies() if x['kind'] == 'closure' and x['id'].startswith(hb['id'] + '::{closure')]
+                    if cl:
+                        break
         okc = False
         if cl:
             I2, r2 = arena.run_fn(ctx, cl[0]['id'], config)
             calts = [t for t, _ in arena.alternatives(I2, r2.ret, set())] if r2.ret is not None else []
             somes = [t for t in calts if t[0] == 'agg' and t[2] == 'Some']
             nones = [t for t in calts if t[0] == 'agg' and t[2] == 'None']
-            st = [e for e in r2.events if e.kind == 'store' and e.val[0] == 'agg' and e.val[2] == 'Some']
+            st = [e for e in r2.events if e.kind == 'store' and e.val[0] == 'agg' and e.val[2] in ('Some', 'Err')]      # the slot is an Option<E> or a Result<(), E>
             def variant_payload(t, variant):
                 # (item as <variant>).0 of an item that came out of Iterator::next
                 return isinstance(t, tuple) and t[:2] == ('app', 'vproj') and t[3] == variant and any(isinstance(x, tuple) and x and x[0] == 'call' and x[1].endswith('Iterator::next') for x in subterms(t[2]))
